@@ -621,8 +621,16 @@ def main(argv: list[str]) -> int:
     mod = importlib.import_module(f"checks.{prop.lower()}")
     verif_seed = int(os.environ.get("VERIF_SEED") or 0)
     print(f"VERIF_SEED={verif_seed} property={prop} tier={a.tier} repo={env.REPO}")
+    from . import simthreads
+
     try:
-        env.import_chartparse()
+        # locks the package makes while it is imported are cooperative ones (simthreads): a
+        # simulated thread that is pre-empted while it holds one cannot deadlock the baton
+        simthreads.install()
+        try:
+            env.import_chartparse()
+        finally:
+            simthreads.uninstall()
     except BaseException:  # noqa: BLE001
         if getattr(mod, "IMPORT_FAILURE_IS_HARNESS_ERROR", True):
             print("HARNESS-ERROR cannot import chartparse from the working tree:")
